@@ -227,6 +227,25 @@ Theorem C16_tversky_identical_binary :
 Proof. exact tversky_identical_binary. Qed.
 Print Assumptions C16_tversky_identical_binary.
 
+(* tversky_loss = (1 - Tversky index)^gamma (gamma = 0 encodes None): zero on identical binary inputs,
+   alpha <-> beta symmetry, and the documented clause through tversky_loss itself: alpha = beta = 1/2 on
+   binary inputs is the Dice loss with 2 epsilon *)
+Theorem C16_tversky_loss :
+  forall (K : fld), is_field K -> char0 K -> forall gamma (alpha beta eps : K) (p t : list K) w,
+  tversky_loss gamma alpha beta eps p t w = tversky_loss gamma beta alpha eps t p w /\
+  (binary p -> wlen_ok K p w -> dotw p p w + eps <> 0 -> tversky_loss gamma alpha beta eps p p w = 0) /\
+  (binary p -> binary t -> length p = length t -> wlen_ok K p w ->
+   dotw p p w + dotw t t w + (1 + 1) * eps <> 0 ->
+   tversky_loss gamma (1 / (1 + 1)) (1 / (1 + 1)) eps p t w = fpow (dice_loss ((1 + 1) * eps) p t w) (Nat.max gamma 1) /\
+   ((gamma <= 1)%nat -> tversky_loss gamma (1 / (1 + 1)) (1 / (1 + 1)) eps p t w = dice_loss ((1 + 1) * eps) p t w)).
+Proof.
+  intros K Kf Kc gamma alpha beta eps p t w.
+  exact (conj (tversky_loss_swap K Kf gamma alpha beta eps p t w)
+        (conj (tversky_loss_identical_binary K Kf gamma alpha beta eps p w)
+              (tversky_loss_half_is_dice_loss K Kf Kc gamma eps p t w))).
+Qed.
+Print Assumptions C16_tversky_loss.
+
 Theorem C16_dice_range :
   forall (eps : RF) (p t : list RF) w,
   wnonneg w -> (0 < dotw p p w + dotw t t w + eps)%R ->
@@ -320,6 +339,18 @@ Proof.
               (gen_tversky_c2w_ok K Kf x0 x1 x2 x3 y0 y1 y2 y3 w0 w1 al be eps))).
 Qed.
 Print Assumptions C16_gen_overlap.
+
+Theorem C16_gen_tversky_loss :
+  forall (K : fld), is_field K -> forall (x0 x1 x2 x3 y0 y1 y2 y3 w0 w1 w2 w3 al be eps : K),
+  let X := [x0; x1; x2; x3] in let Y := [y0; y1; y2; y3] in let W := [w0; w1; w2; w3] in
+  gen_tversky_w al be eps X Y W = [tversky_index al be eps X Y (Some W)] /\
+  gen_tversky_loss_w al be eps X Y W = [tversky_loss 0 al be eps X Y (Some W)] /\
+  gen_tversky_loss_g1 al be eps X Y = [tversky_loss 1 al be eps X Y None] /\
+  gen_tversky_loss_g3 al be eps X Y = [tversky_loss 3 al be eps X Y None] /\
+  Some (gen_tversky_loss_mean al be eps X Y)
+  = b_overlap (tversky_loss 0 al be eps) RMean [[[x0; x1]; [x2; x3]]] [[[y0; y1]; [y2; y3]]] None.
+Proof. intros K Kf x0 x1 x2 x3 y0 y1 y2 y3 w0 w1 w2 w3 al be eps. exact (gen_tversky_loss_ok K Kf x0 x1 x2 x3 y0 y1 y2 y3 w0 w1 w2 w3 al be eps). Qed.
+Print Assumptions C16_gen_tversky_loss.
 
 Theorem C16_gen_ncc :
   forall (K : fld), is_field K -> forall (x0 x1 x2 x3 y0 y1 y2 y3 eps : K),
